@@ -398,11 +398,13 @@ def run_stubbed(backend, data, cfg):
     return res, dict(HOLDER)
 
 
-def zero_data(n_steps, n_qubits, target_times, U=None, masked_U=None, slm_end=0.0):
+def zero_data(n_steps, n_qubits, target_times, U=None, masked_U=None, slm_end=0.0, bad_atoms=None,
+              state_prep_error=0.0):
     import numpy as np
     z = np.zeros((n_steps, n_qubits))
     U = np.zeros((n_qubits, n_qubits)) if U is None else U
-    return compat.make_sequence_data(z, z, z, U, target_times, masked_U=masked_U, slm_end_time=slm_end)
+    return compat.make_sequence_data(z, z, z, U, target_times, masked_U=masked_U, slm_end_time=slm_end,
+                                     bad_atoms=bad_atoms, state_prep_error=state_prep_error)
 
 
 def result_times(res, observable):
@@ -410,7 +412,7 @@ def result_times(res, observable):
 
 
 # ------------------------------------------------------------------ real `get_sequences` under mocks
-def run_get_sequences(reg_mats, reps, user, cutoff, targets, slm_end, n, target_times=(0.0, 1.0)):
+def run_get_sequences(reg_mats, reps, user, cutoff, targets, slm_end, n, target_times=(0.0, 1.0), bad=None):
     """Call the real `PulserData.get_sequences` on a PulserData built without its constructor.
     reg_mats: one register matrix (torch, n×n) per noise trajectory; reps: list of ints."""
     compat.install()
@@ -421,7 +423,8 @@ def run_get_sequences(reg_mats, reps, user, cutoff, targets, slm_end, n, target_
     samples = []
     for i, (m, r) in enumerate(zip(reg_mats, reps)):
         traj = SimpleNamespace(interaction_matrix=SimpleNamespace(as_tensor=lambda m=m: m),
-                               bad_atoms={f"q{j}": False for j in range(n)})
+                               bad_atoms={f"q{j}": (bool(bad[i][j]) if bad is not None else False)
+                                          for j in range(n)})
         samples.append(SimpleNamespace(samples=("traj", i), reps=r, trajectory=traj))
     self.hamiltonian = SimpleNamespace(noisy_samples=samples)
     self.full_interaction_matrix = user
